@@ -173,13 +173,11 @@ theorem matchFloatHex_pos {u : Uni} {src : List Char} {m : FloatMatch}
     (h : matchFloatHex u src = some m) : 0 < m.const.length := by
   unfold matchFloatHex at h
   split at h
-  · rename_i tl
-    simp only [spanP] at h
-    by_cases h1 : (List.takeWhile (fun c => c == 'x' || c == 'X') tl).isEmpty = true
-    · simp [h1] at h
-    · by_cases h2 : (List.takeWhile u.isH (List.dropWhile (fun c => c == 'x' || c == 'X') tl)).isEmpty = true
-      · simp [h1, h2] at h
-      · simp only [h1, h2, Bool.false_eq_true, ↓reduceIte, Option.some.injEq] at h
+  · split at h
+    · cases h
+    · split at h
+      · cases h
+      · simp only [Option.some.injEq] at h
         subst h
         simp
   · cases h
